@@ -332,7 +332,20 @@ def plan(tab, tier, seed):
         for c in cells:
             by.setdefault((c["option"], c["value"]["label"], json.dumps(c["gpfault"])), []).append(c)
         chosen = []
+        # quick tier: at most TWO alternative values per option (rotating with the seed) unless the table asks for all modes;
+        # every live option is still touched on every run, every derived value over three seeds; the thorough tier runs everything
+        per_opt = {}
+        for k in sorted(by):
+            per_opt.setdefault(k[0], []).append(k)
+        keep = set()
+        for o, ks in per_opt.items():
+            if SPECIAL.get(o, {}).get("quick_all_modes") or len(ks) <= 2:
+                keep |= set(ks)
+            else:
+                keep |= {ks[(seed + j) % len(ks)] for j in range(2)}
         for i, k in enumerate(sorted(by)):
+            if k not in keep:
+                continue
             cs = by[k]
             pref = SPECIAL.get(k[0], {}).get("modes_pref")
             if pref:
